@@ -286,8 +286,8 @@ impl Font {
             },
             FontData::Type1(ref info) | FontData::TrueType(ref info) => {
                 match *info {
-                    TFont { first_char: Some(first), ref widths, .. } => Ok(Some(Widths {
-                        default: 0.0,
+                    TFont { first_char: Some(first), ref widths, ref font_descriptor, .. } => Ok(Some(Widths {
+                        default: font_descriptor.as_ref().map(|d| d.missing_width).unwrap_or(0.0),
                         first_char: first as usize,
                         values: widths.as_ref().cloned().unwrap_or_default()
                     })),
